@@ -254,6 +254,11 @@ def equality_pool(r):
         "Quantity(derived a/b, categories reordered)": Quantity.CreateDerived(OrderedDict([("time", ["s", -1]), ("length", ["m", 1])])),
         "Array(unknown,caption)": Array(GetUnknownQuantity("Feeeet"), [1.0, 2.0]), "Array(unknown,other caption)": Array(GetUnknownQuantity("API units"), [1.0, 2.0]),
         "FixedArray(unknown,caption)": FixedArray(2, GetUnknownQuantity("Feeeet"), [1.0, 2.0]),
+        # one quantity reached through requests that need not hand out one interned object: equal, so hash-equal
+        "Quantity(m,length)": ObtainQuantity("m", "length"), "Quantity(length, unit left out)": ObtainQuantity(None, "length"), "Quantity(m,length, empty caption)": ObtainQuantity("m", "length", ""),
+        "Quantity(length,m) by the constructor": Quantity("length", "m"), "Quantity(lbmol)": ObtainQuantity("lbmol", "amount of substance"), "Quantity(lbmole)": ObtainQuantity("lbmole", "amount of substance"),
+        "Scalar(m,length)": Scalar(ObtainQuantity("m", "length"), v), "Scalar(length, unit left out)": Scalar(ObtainQuantity(None, "length"), v), "Scalar(m,length, empty caption)": Scalar(ObtainQuantity("m", "length", ""), v),
+        "Scalar(constructor quantity)": Scalar(Quantity("length", "m"), v), "Scalar(lbmol)": Scalar("amount of substance", v, "lbmol"), "Scalar(lbmole)": Scalar("amount of substance", v, "lbmole"),
         "UnitSystem(id None)": UnitSystem(None, "Null", {}, True), "UnitSystem(the manager's null system)": _null_system(),
         "fractions.Fraction": pyfractions.Fraction(1, 2), "Decimal": decimal.Decimal("0.5"), "rational look-alike": _Rational(1, 2), "np.int64": np.int64(1), "np.float64": np.float64(0.5),
         "complex": 1 + 0j, "bytes": b"x", "frozenset": frozenset([1]), "range": range(2), "type": Scalar,
